@@ -23,7 +23,7 @@ Fixpoint table_regex (tb : rx_table) (pattern t : text) : option (list text) :=
   | (p, x, r) :: rest => if text_eqb p pattern && text_eqb x t then r else table_regex rest pattern t
   end.
 Definition no_ext (id : N) (args : list value) : res := NoFuel.          (* never compared *)
-Definition no_frac_pow (a b : dec) : dec := Dec 0 0.                     (* non-integral powers: kind only *)
+Definition no_frac_pow (a b whole : dec) : pclass + dec := inr (Dec 0 0).   (* non-integral powers: kind only *)
 
 Definition corr_functions : list (text * fname) := [
   ([97; 98; 115]%N, FAbs)   (* abs *);
